@@ -1,5 +1,8 @@
 """C10 — A failed or cancelled command never feeds dependents and is always retried (decision-table half
-+ end-to-end oracle through the real `llbuild buildsystem build`)."""
++ end-to-end oracles through the real `llbuild buildsystem build` and in-process keep-going clients).
+Streams: exhaustive value-kind tables; real child processes (every exit code / fatal signal); the per-execution protocol of one
+ExternalCommand object over several builds (`life`); `e2e` (one failing set per history) and `e2e_histories` (attributes, every
+failure cause, multi-phase histories, three clients) - see notes/C10.md."""
 import itertools, json, os, re, shutil, subprocess, threading
 from .. import common as C
 from ..runner import PropertyCheck
@@ -8,6 +11,10 @@ GEN = os.path.join(C.LEAN, "LLBuild", "Generated", "FailTables.lean")
 NODE_CLASSES = ["plain", "directory", "directoryStructure", "virtual", "commandTimestamp"]
 NOT_INSTANTIABLE = {"ExternalCommand"}            # abstract base: its table rows are reached through every subclass
 NO_RFO = {"SwiftGetVersionCommand"}               # getResultForOutput is llvm_unreachable: never called
+# Linux signals whose default action terminates the process (with or without a core); 17-23 and 28 stop/continue/are ignored
+FATAL_SIGNALS = [n for n in range(1, 65) if n not in (17, 18, 19, 20, 21, 22, 23, 28, 32, 33)]
+SIGNAME = {1: "HUP", 2: "INT", 3: "QUIT", 4: "ILL", 5: "TRAP", 6: "ABRT", 7: "BUS", 8: "FPE", 9: "KILL", 10: "USR1", 11: "SEGV", 12: "USR2",
+           13: "PIPE", 14: "ALRM", 15: "TERM", 16: "STKFLT", 24: "XCPU", 25: "XFSZ", 26: "VTALRM", 27: "PROF", 29: "IO", 30: "PWR", 31: "SYS"}
 
 
 def generated_names():
@@ -195,7 +202,7 @@ class InProc:
             os.unlink(os.path.join(d, "log"))
         except FileNotFoundError:
             pass
-        self.p.stdin.write(("build %s %d\n" % (d, jobs)).encode())
+        self.p.stdin.write(("%s %s %d\n" % (getattr(self, "verb", "build"), d, jobs)).encode())
         self.p.stdin.flush()
         line = self.p.stdout.readline().decode().strip()
         m = re.fullmatch(r"ok=(\d) failures=(\d+) errors=(\d+)", line)
@@ -339,6 +346,355 @@ def run_desc(client, base, desc, jobs):
     return fails, {"cmds": len(shell), "failing": len(failing), "downstream": len(down), "modes": sorted(desc.fail.values()),
                    "phony": sum(1 for c in desc.cmds if c["tool"] == "phony")}
 
+# --------------------------------------------------------------------------------------------------
+# extended end-to-end stream (added after the seeded changes): every way to fail, command attributes, multi-phase histories,
+# three clients (the `llbuild` tool; a keep-going client with a new BuildSystem per build; a keep-going client that REUSES
+# its BuildSystem for the whole history, as BuildSystemFrontend does)
+# --------------------------------------------------------------------------------------------------
+E2E_SIGNALS = [15, 11, 6, 9, 2, 1, 13, 3, 7, 8, 4, 10, 12, 14, 24, 31, 34]     # TERM SEGV ABRT KILL INT HUP PIPE QUIT BUS FPE ILL USR1 USR2 ALRM XCPU SYS RTMIN
+
+
+class DescX(Desc):
+    """Shell commands C0..Cn-1 (topological order, chains and diamonds, multi-output, virtual outputs, phony groups) with
+    the attributes allow-modified-outputs / always-out-of-date / allow-missing-inputs, and a HISTORY: an optional fully
+    successful first build, then 1-3 phases, each with its own set of failing commands (a later phase repairs some and breaks
+    others), each phase optionally built twice (null rebuild of a failed state), then full repair."""
+
+    def __init__(self, rng, idx, fixed=None):
+        self.idx = idx
+        self.ext = True
+        if fixed is not None:
+            self.cmds, self.phases, self.repeat, self.history = fixed["cmds"], fixed["phases"], fixed["repeat"], fixed["history"]
+            self._index()
+            return
+        n = 2 + rng.below(5)
+        self.cmds = []
+        nodes = []
+        for i in range(n):
+            name = "C%d" % i
+            k = rng.below(10)
+            outs = ["o/%s.a" % name]
+            if k < 3:
+                outs.append("o/%s.b" % name)
+            if k in (2, 5):
+                outs.append("<%s>" % name)
+            if k == 7:
+                outs = ["<%s>" % name]
+            ins = []
+            if nodes:
+                for _ in range(1 + rng.below(3)):
+                    if rng.chance(4, 5):
+                        x = rng.choice(nodes)
+                        if x not in ins:
+                            ins.append(x)
+            c = {"name": name, "tool": "shell", "inputs": ins, "outputs": outs, "src": "src/%s.src" % name,
+                 "amo": rng.chance(2, 5), "aood": rng.chance(1, 8), "ami": rng.chance(1, 8)}
+            self.cmds.append(c)
+            nodes += outs
+            if rng.chance(1, 6) and nodes:
+                g = "G%d" % i
+                self.cmds.append({"name": g, "tool": "phony", "inputs": [rng.choice(nodes)], "outputs": ["<%s>" % g], "src": None,
+                                  "amo": False, "aood": False, "ami": False})
+                nodes.append("<%s>" % g)
+        self.phases = []
+        self._index()
+        shell = [c["name"] for c in self.cmds if c["tool"] == "shell"]
+
+        def mode_for(nm):
+            c = self.byname[nm]
+            r = rng.below(10)
+            if r == 0:
+                return "missing-input"
+            if r == 1:
+                return "undeclared-input"
+            if r == 2 and not c["amo"] and any(not o.startswith("<") for o in c["outputs"]):
+                return "unwritable-output"
+            how = "exit" if rng.chance(1, 3) else "sig%d" % rng.choice(E2E_SIGNALS)
+            return how + "@" + rng.choice(["before", "partial", "after", "after"])
+        self.history = rng.chance(2, 3)
+        self.phases, self.repeat = [], []
+        cur = {}
+        for ph in range(1 + rng.below(2) + (1 if rng.chance(1, 4) else 0)):
+            nxt = {nm: m for nm, m in cur.items() if rng.chance(1, 2)}
+            for nm in rng.shuffle(shell)[:1 + rng.below(min(2, len(shell)))]:
+                if nm not in nxt:
+                    nxt[nm] = mode_for(nm)
+            if not nxt:
+                nm = rng.choice(shell)
+                nxt[nm] = mode_for(nm)
+            self.phases.append(nxt)
+            self.repeat.append(rng.chance(1, 2))
+            cur = nxt
+        self._index()
+
+    def _index(self):
+        self.byname = {c["name"]: c for c in self.cmds}
+        self.producer = {o: c["name"] for c in self.cmds for o in c["outputs"]}
+        self.fail = {}
+        for ph in self.phases:
+            self.fail.update(ph)
+
+    def manifest(self):
+        L = ["client:", "  name: basic", "  version: 0", "", "targets:", '  "": ["<all>"]', "", "commands:"]
+        allouts = []
+        for c in self.cmds:
+            L.append('  "%s":' % c["name"])
+            L.append("    tool: %s" % c["tool"])
+            ins = list(c["inputs"]) + ([c["src"]] if c["src"] else [])
+            L.append("    inputs: [%s]" % ", ".join('"%s"' % i for i in ins))
+            L.append("    outputs: [%s]" % ", ".join('"%s"' % o for o in c["outputs"]))
+            if c["tool"] == "shell":
+                for key, attr in (("amo", "allow-modified-outputs"), ("aood", "always-out-of-date"), ("ami", "allow-missing-inputs")):
+                    if c[key]:
+                        L.append('    %s: "true"' % attr)
+                files_in = [i for i in ins if not i.startswith("<")]
+                files_out = [o for o in c["outputs"] if not o.startswith("<")]
+                nm = c["name"]
+                # f <when>: fail here if ctl/<name>.<when> exists (its content says how: `exit` or a signal number)
+                body = "echo %s >> log; ulimit -c 0; " % nm
+                body += "f() { if [ -e ctl/%s.$1 ]; then M=$(cat ctl/%s.$1); case $M in exit) exit 3;; *) kill -$M $$; exit 97;; esac; fi; }; " % (nm, nm)
+                body += "f before; cat aux/%s.aux > /dev/null || exit 7; " % nm         # an input the description does not declare
+                for j, o in enumerate(files_out):
+                    body += "{ echo '%s('; cat %s || exit 8; echo ')'; } > %s || exit 9; " % (nm, " ".join(files_in) if files_in else "/dev/null", o)
+                    if j == 0:
+                        body += "f partial; "
+                if not files_out:
+                    body += "cat %s > /dev/null || exit 8; f partial; " % (" ".join(files_in) if files_in else "/dev/null")
+                body += "f after; true"
+                L.append('    args: ["/bin/sh", "-c", "%s"]' % body)
+            allouts += c["outputs"]
+        L.append('  "<all>":')
+        L.append("    tool: phony")
+        L.append("    inputs: [%s]" % ", ".join('"%s"' % o for o in allouts))
+        L.append('    outputs: ["<all>"]')
+        return "\n".join(L) + "\n"
+
+    def file_downstream(self, roots):
+        """commands that re-run when the FILE outputs of `roots` are rewritten (a virtual node's value does not change)"""
+        hit = set()
+        changed = True
+        while changed:
+            changed = False
+            for c in self.cmds:
+                if c["name"] in hit:
+                    continue
+                if any(not i.startswith("<") and (self.producer.get(i) in hit or self.producer.get(i) in roots) for i in c["inputs"]):
+                    hit.add(c["name"])
+                    changed = True
+        return hit
+
+    def to_json(self):
+        return {"ext": True, "idx": self.idx, "cmds": self.cmds, "phases": self.phases, "repeat": self.repeat, "history": self.history}
+
+
+def fixed_descx():
+    """hand-written members of the scenario space, first in every run: a chain whose head has allow-modified-outputs, fails by
+    each kind of cause AFTER writing its outputs, is rebuilt unchanged, then repaired (with and without an earlier success)"""
+    out = []
+    modes = ["exit@after", "sig15@after", "sig11@partial", "sig6@before", "sig9@after", "sig2@after", "sig1@after", "undeclared-input",
+             "missing-input", "unwritable-output", "sig13@after", "exit@partial"]
+    for i, mode in enumerate(modes):
+        amo = mode != "unwritable-output" and i % 3 != 2
+        cmds = [{"name": "C0", "tool": "shell", "inputs": [], "outputs": ["o/C0.a", "o/C0.b"], "src": "src/C0.src", "amo": amo, "aood": False, "ami": False},
+                {"name": "C1", "tool": "shell", "inputs": ["o/C0.a"], "outputs": ["o/C1.a"], "src": "src/C1.src", "amo": False, "aood": False, "ami": False},
+                {"name": "C2", "tool": "shell", "inputs": ["o/C1.a", "o/C0.b"], "outputs": ["o/C2.a", "<C2>"], "src": "src/C2.src", "amo": i % 2 == 1, "aood": False, "ami": False},
+                {"name": "C3", "tool": "shell", "inputs": [], "outputs": ["o/C3.a"], "src": "src/C3.src", "amo": False, "aood": i == 5, "ami": False}]
+        out.append(DescX(None, 2000 + i, fixed={"cmds": cmds, "phases": [{"C0": mode}], "repeat": [True], "history": i % 2 == 0}))
+    return out
+
+
+class Session(InProc):
+    """keep-going client that creates ONE BuildSystem per history and reuses it for every build of that history"""
+    name = "session"
+    verb = "session"
+
+    def drop(self, d):
+        self.p.stdin.write(("drop %s\n" % d).encode())
+        self.p.stdin.flush()
+        self.p.stdout.readline()
+
+
+def run_hist(client, base, desc, jobs):
+    """The history of a DescX through one client.  Oracle = the property text, evaluated with a lower bound `pending` of the
+    commands that MUST execute in the next build in which nothing upstream of them fails (never built, failed, skipped because
+    of a failure, or made out of date by the test)."""
+    fails = []
+    keep = client.name != "cli"
+    d = os.path.join(base, "x%d-j%d-%s" % (desc.idx, jobs, client.name))
+    clean = d + "-clean"
+    shell = [c["name"] for c in desc.cmds if c["tool"] == "shell"]
+    amo = {c["name"] for c in desc.cmds if c["amo"]}
+    aood = {c["name"] for c in desc.cmds if c["aood"]}
+    # amo_risky: allow-modified-outputs commands that had a recorded success and LATER failed, were skipped for a failure or
+    # were executing in a build that failed (two findings of the strengthening round live exactly there, see notes/C10.md)
+    st = {"label": "", "build": 0, "ever_armed": set(), "succeeded": set(), "amo_risky": set()}
+
+    def setup(x):
+        shutil.rmtree(x, ignore_errors=True)
+        for sub in ("ctl", "src", "o", "aux"):
+            os.makedirs(os.path.join(x, sub))
+        open(os.path.join(x, "build.llbuild"), "w").write(desc.manifest())
+        for c in desc.cmds:
+            if c["src"]:
+                open(os.path.join(x, c["src"]), "w").write("src of %s\n" % c["name"])
+                open(os.path.join(x, "aux", c["name"] + ".aux"), "w").write("aux\n")
+    setup(d)
+
+    def bad(what, **kw):
+        f = {"what": "[%s client, %s, build %d: %s] %s" % (client.name, "serial" if jobs == 1 else "-j%d" % jobs, st["build"], st["label"], what),
+             "route": "e2e", "stream": "history", "client": client.name, "jobs": jobs,
+             "input": {"desc": desc.to_json(), "jobs": jobs, "client": client.name},
+             # discriminating facts about the history so far (see notes/C10.md, findings of the strengthening round)
+             "amo_unsuccessful_after_success": bool(st["amo_risky"])}
+        f.update(kw)
+        fails.append(f)
+
+    def files_out(nm):
+        return [o for o in desc.byname[nm]["outputs"] if not o.startswith("<")]
+
+    def edit_src(nm, pending, recreate=False):
+        """a changed source; allow-modified-outputs commands at or below it are not re-run for a changed input while their outputs
+        exist (known finding F42, not a C10 clause): take their outputs away so that they have to run"""
+        p = os.path.join(d, desc.byname[nm]["src"])
+        if recreate:
+            open(p, "w").write("src of %s, recreated in build %d\n" % (nm, st["build"]))
+        else:
+            open(p, "a").write("edited before build %d, longer\n" % (st["build"] + 1))
+        for x in ({nm} | desc.file_downstream({nm})) & amo:
+            for o in files_out(x):
+                try:
+                    os.unlink(os.path.join(d, o))
+                except (FileNotFoundError, IsADirectoryError):
+                    pass
+            pending.add(x)
+
+    def arm(nm, mode, pending):
+        c = desc.byname[nm]
+        if nm not in pending:
+            edit_src(nm, pending)
+            pending.add(nm)
+        if mode == "missing-input":
+            os.unlink(os.path.join(d, c["src"]))
+        elif mode == "undeclared-input":
+            os.unlink(os.path.join(d, "aux", nm + ".aux"))
+        elif mode == "unwritable-output":
+            p = os.path.join(d, files_out(nm)[0])
+            if os.path.isfile(p):
+                os.unlink(p)
+            os.mkdir(p)
+        else:
+            how, when = mode.split("@")
+            open(os.path.join(d, "ctl", "%s.%s" % (nm, when)), "w").write("exit\n" if how == "exit" else how[3:] + "\n")
+        st["ever_armed"].add(nm)
+
+    def disarm(nm, mode, pending):
+        c = desc.byname[nm]
+        if mode == "missing-input":
+            edit_src(nm, pending, recreate=True)
+        elif mode == "undeclared-input":
+            open(os.path.join(d, "aux", nm + ".aux"), "w").write("aux\n")
+        elif mode == "unwritable-output":
+            os.rmdir(os.path.join(d, files_out(nm)[0]))
+        else:
+            os.unlink(os.path.join(d, "ctl", "%s.%s" % (nm, mode.split("@")[1])))
+        pending.add(nm)
+
+    def once(log, names, why, clause="rerun"):
+        for nm in sorted(names):
+            if log.count(nm) != 1:
+                bad("%s: command %s executed %d times, expected exactly once" % (why, nm, log.count(nm)), clause=clause, command=nm,
+                    mode=armed.get(nm, "not-failing"), command_amo=nm in amo)
+
+    def build(label, armed, pending):
+        st["label"] = label
+        st["build"] += 1
+        failed, log, out = client.build(d, jobs)
+        F = set(armed)
+        down = {n for n in desc.data_downstream(F) if desc.byname[n]["tool"] == "shell"}
+        roots = F - down
+        skips = {n for n in F if armed[n] == "missing-input" and not desc.byname[n]["ami"]}     # never started: the input is missing
+        if roots:
+            st["amo_risky"] |= amo & st["succeeded"] & (F | down | set(log))
+        for nm in sorted(set(log)):
+            if nm in down:
+                bad("%s executed although it consumes (transitively) an output of a failing command %s" % (nm, sorted(F)),
+                    clause="no-downstream-execution", command=nm)
+            elif nm in skips:
+                bad("%s executed although its declared input is missing" % nm, clause="no-downstream-execution", command=nm)
+            if log.count(nm) > 1:
+                bad("%s executed %d times in one build" % (nm, log.count(nm)), clause="rerun", command=nm, mode="twice")
+        if bool(roots) != bool(failed):
+            modes = sorted(armed[n] for n in roots)
+            bad("the build reports %s (%s) although %s" % ("failure" if failed else "success", out,
+                                                           "commands %s fail (%s)" % (sorted(roots), ",".join(modes)) if roots else "nothing fails"),
+                clause="build-reports-failure", modes=modes,
+                only_killed=bool(roots) and all(m.startswith(("sig9@", "sig2@")) for m in modes))
+        if keep:
+            once(log, roots - skips, "a failing command is attempted (again)")
+            once(log, pending - F - down, "a command that never ran, failed, was skipped for a failure or is out of date, and has no failing producer now, runs")
+            now = (pending - set(log)) | F | down
+        else:
+            if roots and not (roots & skips) and F == roots and not (set(log) & roots):
+                bad("none of the failing commands %s was attempted" % sorted(roots), clause="rerun", command=sorted(roots)[0], mode="any")
+            if not F:
+                once(log, pending, "a command that never ran, failed or is out of date runs once nothing fails any more")
+            now = (pending - set(log)) | F
+        st["succeeded"] |= set(log) - F - down
+        pending.clear()
+        pending.update(now)
+        return failed, log, out
+
+    pending = set(shell)
+    armed = {}
+    if desc.history:
+        failed, log, out = build("initial build, nothing fails", armed, pending)
+        if failed or sorted(log) != sorted(shell):
+            bad("initial build without failures did not run every command once and succeed (%s log=%s)" % (out, log), clause="reference")
+            if client.name == "session":
+                client.drop(d)
+            return fails, {}
+    for pi, phase in enumerate(desc.phases):
+        for nm in sorted(set(armed) - set(phase)) + sorted(nm for nm in armed if nm in phase and phase[nm] != armed[nm]):
+            disarm(nm, armed.pop(nm), pending)
+        for nm in sorted(phase):
+            if nm not in armed:
+                arm(nm, phase[nm], pending)
+                armed[nm] = phase[nm]
+        build("phase %d, failing %s" % (pi + 1, json.dumps(phase, sort_keys=True)), armed, pending)
+        if desc.repeat[pi]:
+            build("phase %d again, nothing changed" % (pi + 1), armed, pending)
+    for nm in sorted(armed):
+        disarm(nm, armed.pop(nm), pending)
+    failed, log, out = build("after repair", armed, pending)
+    got = snapshot(d)
+    setup(clean)
+    for c in desc.cmds:
+        if c["src"]:
+            shutil.copyfile(os.path.join(d, c["src"]), os.path.join(clean, c["src"]))
+    st["label"] = "reference clean build"
+    cfailed, clog, cout = (client if client.name != "session" else client.fresh).build(clean, jobs)
+    if cfailed or sorted(clog) != sorted(shell):
+        bad("reference clean build did not run every command once and succeed (%s log=%s)" % (cout, clog), clause="reference")
+    elif got != snapshot(clean):
+        want = snapshot(clean)
+        diff = sorted(k for k in set(got) | set(want) if got.get(k) != want.get(k))
+        bad("after repair the outputs differ from a clean build of the same sources: %s" % diff, clause="converges", files=diff)
+    st["label"] = "null build after convergence"
+    st["build"] += 1
+    failed, log, out = client.build(d, jobs)
+    may = aood | desc.file_downstream(aood)
+    if failed or not ((aood - amo) <= set(log) <= may):
+        bad("not a null build: %s executed=%s (always-out-of-date commands: %s)" % (out, log, sorted(aood)), clause="converges")
+    if client.name == "session":
+        client.drop(d)
+    shutil.rmtree(d, ignore_errors=True)
+    shutil.rmtree(clean, ignore_errors=True)
+    modes = sorted(set(m for ph in desc.phases for m in ph.values()))
+    return fails, {"cmds": len(shell), "failing": len(desc.fail), "downstream": len(desc.data_downstream(set(desc.fail))), "modes": modes,
+                   "phony": sum(1 for c in desc.cmds if c["tool"] == "phony"), "builds": st["build"], "phases": len(desc.phases),
+                   "amo_failing": len(amo & set(desc.fail)), "amo_unsuccessful_after_success": bool(st["amo_risky"]),
+                   "aood": len(aood), "history": desc.history}
+
 
 class Check(PropertyCheck):
     prop = "C10"
@@ -346,7 +702,11 @@ class Check(PropertyCheck):
     theorems = ["LLBuild.FailProp.C10_failure_maps_to_failed_input", "LLBuild.FailProp.C10_failure_maps_to_failed_input_nodes",
                 "LLBuild.FailProp.C10_process_outcomes", "LLBuild.FailProp.C10_skip_domain",
                 "LLBuild.FailProp.C10_failed_input_skips", "LLBuild.FailProp.C10_never_up_to_date",
-                "LLBuild.FailProp.C10_build_fails"] + \
+                "LLBuild.FailProp.C10_build_fails",
+                # added after the seeded changes: every way a child can end (exit code / any signal); the stored failure never
+                # enables the update-without-running shortcut of execute
+                "LLBuild.FailProp.C10_child_end_outcomes", "LLBuild.FailProp.C10_failed_prior_is_rerun",
+                "LLBuild.FailProp.C10_failed_prior_is_rerun_reused"] + \
                ["LLBuild.Engine." + t for t in (
                    # engine level, any client with the failure facts (Props/C10Engine.lean)
                    "C10_failed_never_up_to_date", "C10_failed_up_to_date_rejected", "C10_failed_never_up_to_date_any_client",
@@ -367,9 +727,14 @@ class Check(PropertyCheck):
         "phony commands' virtual non-timestamp outputs are ordering-only edges (F16; documented purpose of the tool) and SwiftGetVersionCommand is never a producer",
         "engine-level clauses (closure, re-run on the next build, convergence) are theorems about traces accepted by the abstract engine monitor (Model/Engine.lean; its tie to BuildEngine.cpp is C01's correspondence) for any client with the two failure facts, instantiated for the C08 client model (Model/BuildSystemClient.lean: no discovered dependencies, a command has no failure of its own besides a missing/failed input); 'not executed' is stated on values (the skip value), the process-level statement is C10_failed_input_skips + the end-to-end oracle",
         "a CAPIExternalCommand whose client supplies its own is_result_valid is outside the table (client code)",
+        "allow-modified-outputs: a command whose only reason to run is a changed INPUT is not re-run while its outputs exist (known finding F42, property C08); the C10 histories keep to the failure/retry/repair clauses: whenever the test edits a source it removes the outputs of the allow-modified-outputs commands at or below it",
+        "requires fix F47 (start() resets hasPriorResult / canUpdateIfNewer; applied): without it C10_failed_prior_is_rerun_reused does not hold and the life stream / the session client report the stale-flag history",
+        "known finding F48 (cancelled build keeps the last successful database record of the commands in flight; allow-modified-outputs commands are then not retried through the llbuild tool) is suppressed by its narrow match only",
     ]
     trusted_base = ["extractor x_failtables", "extractors x_bsrules, x_enginefp (shared with C08 / C01) and the hand models Model/Engine.lean, Model/BuildSystemClient.lean for the engine-level theorems", "harness vc10 (real getResultForOutput / provideValue+execute / isResultValid / Produced*NodeTask::isResultValid)",
-                    "python oracles: table restatement of the three clauses; end-to-end history oracle through bin/llbuild"]
+                    "python oracles: table restatement of the three clauses; end-to-end history oracle through bin/llbuild",
+                    "Linux wait-status encoding (glibc <bits/waitstatus.h>, signal numbers) written into the generated file by the extractor; the proc stream "
+                    "compares it with what the kernel reports for real children (python os.W* on the raw status)"]
 
     # ---------------------------------------------------------------------------------------------
     def table_ops(self, ctx, kinds, classes, preds):
@@ -393,11 +758,39 @@ class Check(PropertyCheck):
             for k in K:
                 for env in itertools.product((0, 1), repeat=4):
                     ops.append("valid %s %d %d %d %d %d" % ((c, k) + env))
+        # real children through the real execution queue: every exit code, every signal whose default action ends the process
+        for n in range(256):
+            ops.append("proc exit %d" % n)
+        for n in FATAL_SIGNALS:
+            ops.append("proc sig %d" % n)
         for k in K:
             ops.append("pnode %d" % k)
             ops.append("pdir %d" % k)
             for p in preds:
                 ops.append("pred %s %d" % (p, k))
+        return ops
+
+    def life_ops(self, ctx, nkinds, legal, first_priors, mo):
+        def build(prior, inputs):
+            return ["s"] + (["p%d" % prior] if prior is not None else []) + ["v%d" % k for k in inputs] + ["x"]
+        priors = [None] + list(range(nkinds))
+        ops = []
+        for amo in (0, 1):
+            for exist in (0, 1):
+                for p in priors:
+                    for ins in [[]] + [[k] for k in legal]:
+                        ops.append("life %d %d %s" % (amo, exist, ",".join(build(p, ins))))
+                firsts = priors if ctx.thorough else [None] + sorted(first_priors)
+                for p1 in firsts:
+                    for i1 in ([], [mo]):
+                        for p2 in priors:
+                            for i2 in ([], [mo]):
+                                ops.append("life %d %d %s" % (amo, exist, ",".join(build(p1, i1) + build(p2, i2))))
+                if ctx.thorough:
+                    for p1 in sorted(first_priors):
+                        for p2 in [None] + sorted(first_priors):
+                            for p3 in priors:
+                                ops.append("life %d %d %s" % (amo, exist, ",".join(build(p1, []) + build(p2, []) + build(p3, []))))
         return ops
 
     def table_part(self, ctx, res):
@@ -418,6 +811,9 @@ class Check(PropertyCheck):
             if ctx.thorough:
                 for t in itertools.product(legal, repeat=4):
                     extra.append("prov %d %s" % (a, ",".join(map(str, t))))
+        # one ExternalCommand object through one, two (thorough: three) builds: start, providePriorValue(kind)?, provideValue(kind)*, execute
+        extra += self.life_ops(ctx, len(kinds), legal, {ord_of[k] for k in ("SuccessfulCommand", "SuccessfulCommandWithOutputSignature", "FailedCommand",
+                                                                               "CancelledCommand", "PropagatedFailureCommand")}, ord_of["MissingOutput"])
         erc, eout, eerr = run_model("c10table", extra)
         ops += extra
         mout += eout
@@ -437,6 +833,11 @@ class Check(PropertyCheck):
         FAIL = {ord_of[k] for k in ("FailedCommand", "PropagatedFailureCommand", "CancelledCommand")}
         SUCC = {ord_of[k] for k in ("SuccessfulCommand", "SuccessfulCommandWithOutputSignature")}
         FI, MI, VI, PF = ord_of["FailedInput"], ord_of["MissingInput"], ord_of["VirtualInput"], ord_of["PropagatedFailureCommand"]
+        life_alone = {}
+        for j, i in enumerate(send):
+            f = ops[i].split()
+            if f[0] == "life" and f[3].count("s") == 1:
+                life_alone[(f[1], f[2], f[3])] = hout[j]
         for j, i in enumerate(send):
             op, m, h = ops[i], mout[i], hout[j]
             f = op.split()
@@ -480,6 +881,53 @@ class Check(PropertyCheck):
                         "what": "external command with input values %s (allow-missing-inputs=%s): %s, expected %s"
                                 % ([kinds[k] for k in ks], f[1], h, want),
                         "route": "table", "call": "provideValue/execute", "got": h, "want": want, "input": op})
+            elif f[0] == "proc":
+                dist["child_ends"] = dist.get("child_ends", 0) + 1
+                n = int(f[2])
+                mm = re.fullmatch(r"raw=(-?\d+) status=(\w+)", h)
+                raw = int(mm.group(1)) if mm else None
+                how = "exit" if f[1] == "exit" else "signal"
+                if raw is None or (f[1] == "exit" and not (os.WIFEXITED(raw) and os.WEXITSTATUS(raw) == n)) or \
+                        (f[1] == "sig" and not (os.WIFSIGNALED(raw) and os.WTERMSIG(raw) == n)):
+                    res.oracle_failures.append({"what": "a child made to end by %s %d was reported as %s" % (how, n, h), "route": "table", "kind": "child-end-not-observed",
+                                                "call": "executeProcess", "end": how, "number": n, "input": op})
+                    continue
+                ok_end = os.WIFEXITED(raw) and os.WEXITSTATUS(raw) == 0
+                dist["child_ends_nonzero"] = dist.get("child_ends_nonzero", 0) + (0 if ok_end else 1)
+                if (mm.group(2) == "Succeeded") != ok_end or mm.group(2) not in ("Succeeded", "Failed", "Cancelled") or \
+                        (mm.group(2) == "Cancelled" and not os.WIFSIGNALED(raw)):
+                    res.oracle_failures.append({
+                        "what": "a child that %s is reported to the command as ProcessStatus::%s (wait status %d): an external command %s"
+                                % ("called exit(%d)" % n if how == "exit" else "was killed by signal %d (SIG%s)" % (n, SIGNAME.get(n, "RT")), mm.group(2), raw,
+                                   "that failed is recorded as successful" if not ok_end else "that succeeded is recorded as failed"),
+                        "route": "table", "kind": "child-end-misclassified", "call": "cleanUpExecutedProcess", "end": how, "number": n,
+                        "got": mm.group(2), "input": op})
+            elif f[0] == "life":
+                dist["life_sequences"] = dist.get("life_sequences", 0) + 1
+                builds = [b.split(",") for b in ("," + f[3]).split(",s,")[1:]]
+                outs = h.split(";")
+                if len(outs) != len(builds):
+                    res.oracle_failures.append({"what": "life sequence gave %r" % h, "route": "table", "kind": "life-protocol", "input": op})
+                    continue
+                for bi, (b, o) in enumerate(zip(builds, outs)):
+                    prior = next((int(x[1:]) for x in b if x[0] == "p"), None)
+                    ins = [int(x[1:]) for x in b if x[0] == "v"]
+                    if prior is not None and prior in SUCC:
+                        continue      # a successful prior result: running, updating or skipping is C08's business
+                    dist["life_failed_prior_builds"] = dist.get("life_failed_prior_builds", 0) + 1
+                    blocked = any(k in (FI, MI) for k in ins)
+                    want = ("skip=%d" % PF) if blocked else "run"
+                    if o != want:
+                        # does the same build on a fresh object behave? then the wrong decision comes from state left by an earlier build
+                        alone = life_alone.get((f[1], f[2], ",".join(["s"] + b)))
+                        res.oracle_failures.append({
+                            "what": "ExternalCommand (allow-modified-outputs=%s, outputs %s) in build %d of %d on one object, prior value %s, inputs %s: "
+                                    "execute gives %r, expected %r: a command whose recorded result is not a success must be re-attempted"
+                                    % (f[1], "on disk" if f[2] == "1" else "missing", bi + 1, len(builds), "none" if prior is None else kinds[prior],
+                                       [kinds[k] for k in ins], o, want),
+                            "route": "table", "kind": "failed-prior-not-rerun", "call": "providePriorValue/execute", "got": o,
+                            "prior_kind": "none" if prior is None else kinds[prior], "stale_flag_from_earlier_build": bool(bi > 0 and alone == want),
+                            "input": op})
             elif f[0] == "valid" and int(f[2]) not in SUCC and h != "0":
                 res.oracle_failures.append({
                     "what": "%s::isResultValid accepts a stored %s result as up to date" % (f[1], kinds[int(f[2])]),
@@ -499,11 +947,16 @@ class Check(PropertyCheck):
         base = os.path.join(C.BUILD, "scratch", "c10-e2e-%d" % os.getpid())
         os.makedirs(base, exist_ok=True)
         descs = []
+        only = None
         if getattr(ctx, "replay_path", None):
             try:
                 rp = json.load(open(ctx.replay_path))
-                dj = rp.get("failure", {}).get("input", {}).get("desc")
-                if dj:
+                inp = rp.get("failure", {}).get("input", {})
+                dj = inp.get("desc") if isinstance(inp, dict) else None
+                if dj and dj.get("ext"):
+                    descs.append(DescX(None, dj["idx"], fixed=dj))
+                    only = (inp.get("jobs"), inp.get("client"))
+                elif dj:
                     d = Desc.__new__(Desc)
                     d.idx, d.cmds, d.fail, d.history = dj["idx"], dj["cmds"], dj["fail"], dj["history"]
                     d.byname = {c["name"]: c for c in d.cmds}
@@ -512,6 +965,7 @@ class Check(PropertyCheck):
             except Exception as e:
                 C.log("replay file not usable: %s" % e)
         n = 120 if ctx.thorough else 28
+        nx = 150 if ctx.thorough else 26
         if not descs:
             # fixed seeds of the scenario space first: one command per failure mode in a two-command chain
             for i, mode in enumerate(["exit", "exit-after-write", "signal", "sigint", "missing-input"]):
@@ -526,60 +980,114 @@ class Check(PropertyCheck):
                 d.producer = {o: c["name"] for c in d.cmds for o in c["outputs"]}
                 descs.append(d)
             descs += [Desc(ctx.rng, i) for i in range(n)]
+            descs += fixed_descx()
+            descs += [DescX(ctx.rng, 3000 + i) for i in range(nx)]
         jobs_list = [1, 4]
-        work = [(d, j, c) for d in descs for j in jobs_list for c in ("cli", "keep-going")]
+        work = []
+        for d in descs:
+            for j in jobs_list:
+                for c in (("cli", "keep-going", "session") if getattr(d, "ext", False) else ("cli", "keep-going")):
+                    if only is None or only == (j, c) or only[1] is None:
+                        work.append((d, j, c))
         results = [None] * len(work)
         lock = threading.Lock()
         pos = [0]
 
         def worker():
-            clients = {"cli": Cli(exe), "keep-going": InProc(ctx.exe[("vc10", "plain")])}
+            def mk():
+                cl = {"cli": Cli(exe), "keep-going": InProc(ctx.exe[("vc10", "plain")]), "session": Session(ctx.exe[("vc10", "plain")])}
+                cl["session"].fresh = cl["keep-going"]
+                return cl
+            clients = mk()
             while True:
                 with lock:
                     i = pos[0]
                     pos[0] += 1
                 if i >= len(work):
                     break
+                d, j, c = work[i]
                 try:
-                    results[i] = run_desc(clients[work[i][2]], base, work[i][0], work[i][1])
+                    results[i] = (run_hist if getattr(d, "ext", False) else run_desc)(clients[c], base, d, j)
                 except Exception as e:
-                    results[i] = ([{"what": "e2e case crashed: %r" % e, "route": "e2e", "client": work[i][2],
-                                    "input": {"desc": work[i][0].to_json(), "jobs": work[i][1]}}], {})
-                    clients["keep-going"] = InProc(ctx.exe[("vc10", "plain")])
+                    results[i] = ([{"what": "e2e case crashed: %r" % e, "route": "e2e", "client": c, "clause": "harness",
+                                    "input": {"desc": d.to_json(), "jobs": j, "client": c}}], {})
+                    for x in clients.values():
+                        try:
+                            x.p.kill()
+                        except Exception:
+                            pass
+                    clients = mk()
             for c in clients.values():
                 c.close()
-        ts = [threading.Thread(target=worker) for _ in range(6)]
+        ts = [threading.Thread(target=worker) for _ in range(8)]
         for t in ts:
             t.start()
         for t in ts:
             t.join()
-        modes = {}
-        tot = {"descriptions": len(descs), "runs": len(work), "with_downstream": 0, "with_phony_group": 0, "commands": 0}
-        for fails, st in results:
-            res.oracle_failures += fails
-            if st:
-                tot["commands"] += st["cmds"]
-                tot["with_downstream"] += 1 if st["downstream"] else 0
-                tot["with_phony_group"] += 1 if st["phony"] else 0
-                for m in st["modes"]:
-                    modes[m] = modes.get(m, 0) + 1
-        tot["failure_modes"] = modes
-        res.evaluations += len(work)
-        res.distinct_nontrivial += tot["with_downstream"]
-        res.distribution["e2e"] = tot
+        for key, ext in (("e2e", False), ("e2e_histories", True)):
+            modes = {}
+            tot = {"descriptions": sum(1 for d in descs if bool(getattr(d, "ext", False)) == ext), "runs": 0, "with_downstream": 0,
+                   "with_phony_group": 0, "commands": 0}
+            if ext:
+                tot.update({"builds": 0, "multi_phase": 0, "after_successful_build": 0, "failing_allow_modified_outputs": 0,
+                            "allow_modified_outputs_unsuccessful_after_success": 0, "with_always_out_of_date": 0, "per_client": {}})
+            for (d, j, c), r in zip(work, results):
+                if bool(getattr(d, "ext", False)) != ext:
+                    continue
+                fails, st = r
+                res.oracle_failures += fails
+                tot["runs"] += 1
+                if st:
+                    tot["commands"] += st["cmds"]
+                    tot["with_downstream"] += 1 if st["downstream"] else 0
+                    tot["with_phony_group"] += 1 if st["phony"] else 0
+                    for m in st["modes"]:
+                        m = m if not ext else re.sub(r"^sig(\d+)", lambda mm: "SIG" + SIGNAME.get(int(mm.group(1)), "RT" + mm.group(1)), m)
+                        modes[m] = modes.get(m, 0) + 1
+                    if ext:
+                        tot["builds"] += st["builds"]
+                        tot["multi_phase"] += 1 if st["phases"] > 1 else 0
+                        tot["after_successful_build"] += 1 if st["history"] else 0
+                        tot["failing_allow_modified_outputs"] += 1 if st["amo_failing"] else 0
+                        tot["allow_modified_outputs_unsuccessful_after_success"] += 1 if st["amo_unsuccessful_after_success"] else 0
+                        tot["with_always_out_of_date"] += 1 if st["aood"] else 0
+                        tot["per_client"][c] = tot["per_client"].get(c, 0) + 1
+            tot["failure_modes"] = modes
+            res.evaluations += tot["runs"]
+            res.distinct_nontrivial += tot["with_downstream"]
+            res.distribution[key] = tot
         shutil.rmtree(base, ignore_errors=True)
 
     def correspond(self, ctx, res):
         self.table_part(ctx, res)
         self.e2e_part(ctx, res)
+        # the runner writes replay files for the first five distinct failures: make them one per (route, clause/kind, client), end-to-end first
+        buckets = {}
+        for f in res.oracle_failures:
+            buckets.setdefault((0 if f.get("route") == "e2e" else 1, str(f.get("kind") or f.get("clause")), str(f.get("client"))), []).append(f)
+        order = []
+        while any(buckets.values()):
+            for k in sorted(buckets):
+                if buckets[k]:
+                    order.append(buckets[k].pop(0))
+        res.oracle_failures = order
         res.exhaustive = True
         res.rule = ("tables: every command class x value kind x node class x output-missing flag (getResultForOutput), every input-kind sequence "
                     "of length <= 2 over all kinds and length 3%s over the legal input kinds x allow-missing-inputs (provideValue+execute on a real "
                     "PhonyCommand), every class x kind x guard environment (isResultValid), Produced[Directory]NodeTask::isResultValid and every public "
                     "BuildValue predicate for every kind - exhaustive, compared verbatim with the generated Lean tables; plus generated descriptions "
                     "with failing subsets (exit, exit after writing, SIGKILL, SIGINT, missing declared input), optionally after a successful build, "
-                    "serial and -j4, through bin/llbuild. Non-trivial = table rows with a failure kind / descriptions where a failed command has "
-                    "data-dependent consumers." % ("-4" if ctx.thorough else ""))
+                    "serial and -j4, through bin/llbuild and an in-process keep-going client. Added after the seeded changes: real children through "
+                    "the real execution queue for every exit code 0-255 and every fatal signal (wait status -> ProcessStatus, compared with the "
+                    "generated classification and with the property); one ExternalCommand object driven through 1-2%s builds of start / "
+                    "providePriorValue(every kind) / provideValue / execute with allow-modified-outputs on/off and outputs present/absent; "
+                    "generated HISTORIES (e2e_histories): chains/diamonds of shell commands with allow-modified-outputs, always-out-of-date, "
+                    "allow-missing-inputs, multi/virtual outputs; failure by exit status or by one of 17 signals before / between / after writing "
+                    "the outputs, by a missing declared input, a missing UNdeclared input, an unwritable output; 1-3 phases with different failing "
+                    "subsets, each optionally rebuilt unchanged, optionally after a fully successful build, then repair, comparison with a clean build "
+                    "and a null build; serial and -j4; three clients (llbuild tool, keep-going client with a BuildSystem per build, keep-going client "
+                    "reusing one BuildSystem). Non-trivial = table rows with a failure kind / descriptions where a failed command has "
+                    "data-dependent consumers." % ("-4" if ctx.thorough else "", "-3" if ctx.thorough else ""))
 
     def search(self, ctx, res, why):
         return   # the table comparison is exhaustive and the end-to-end oracle already ran
